@@ -14,6 +14,7 @@ from __future__ import annotations
 import contextlib
 import io
 import json
+import math
 import re
 
 import numpy as np
@@ -49,7 +50,8 @@ REQUIRED_COUNTERS = ['code_data_requests', 'decode_requests',
                      'new_errors_requests', 'decoder_name_requests',
                      'rotated_picture_requests', 'coprime_requests',
                      'deformed_requests', 'repeated_requests_compared',
-                     'extended_gui_requests', 'extended_gui_decodes']
+                     'extended_gui_requests', 'extended_gui_decodes',
+                     'polygons_compared_with_supports']
 SHARD_TIMEOUT = {'quick': 900, 'thorough': 5400}
 
 BUDGET = {'quick': 3 * 10 ** 5, 'thorough': 4 * 10 ** 6}
@@ -111,6 +113,32 @@ def display_ok(returned, coord, rotated):
 
 
 SEEN_BODIES = {}
+
+
+def polygon_mismatch(code, loc, verts):
+    """vertices (offsets from the drawn location, up to one common positive
+    scale) vs the qubits in the support of the stabilizer at loc."""
+    sup = [tuple(float(c) for c in q[:2]) for q in code.get_stabilizer(loc)]
+    offs = [(q[0] - loc[0], q[1] - loc[1]) for q in sup]
+    if any(max(abs(o[0]), abs(o[1])) > 4 for o in offs):
+        return None     # support reached through the periodic seam: skipped
+    if len(verts) != len(sup):
+        return (f'{len(verts)} corners for a support of {len(sup)} qubits '
+                f'{sorted(sup)}')
+    norms_v = sorted(math.hypot(*v) for v in verts)
+    norms_o = sorted(math.hypot(*o) for o in offs)
+    if min(norms_v) <= 1e-9:
+        return 'a corner coincides with the centre'
+    scale = norms_o[0] / norms_v[0]
+    left = list(offs)
+    for v in verts:
+        hit = next((o for o in left if abs(o[0] - v[0] * scale) < 1e-6
+                    and abs(o[1] - v[1] * scale) < 1e-6), None)
+        if hit is None:
+            return (f'corner {v} (scale {scale:g}) points at no qubit of the '
+                    f'support offsets {sorted(left)}')
+        left.remove(hit)
+    return None
 
 
 def check_code_data(out, client, gui_name, cls_name, size, dname, rotated,
@@ -217,6 +245,16 @@ def check_code_data(out, client, gui_name, cls_name, size, dname, rotated,
             bad('stabilizer-order', f"stabilizer {i} drawn at "
                 f"{s['location']} but library stabilizer {i} sits at {loc}")
             break
+        # a polygon's corners point at the qubits the stabilizer acts on
+        verts = s['params'].get('vertices') if s['object'] == 'polygon' \
+            else None
+        if verts and len(size) == 2:
+            out.count('polygons_compared_with_supports')
+            why = polygon_mismatch(code, loc, verts)
+            if why:
+                bad('polygon-not-on-support',
+                    f'stabilizer {i} at {loc}: {why}')
+                break
     H = np.array(body['H']).reshape(m, -1) if m else np.zeros((0, 2 * n))
     if H.shape != (m, 2 * n) or \
             gf2.pack_rows(H) != gf2.pack_rows(code.stabilizer_matrix):
